@@ -39,6 +39,11 @@ def strip(src):
 
 def items(path):
     """{name: digest} of the top-level items of a Rust file"""
+    return {k: hashlib.sha256(v.encode()).hexdigest()[:15] for k, v in item_texts(path).items()}
+
+
+def item_texts(path):
+    """{name: normalised text} of the top-level items of a Rust file"""
     src = strip(open(path, encoding="utf-8").read())
     # drop test modules
     res, depth, i, n = {}, 0, 0, len(src)
@@ -77,5 +82,5 @@ def items(path):
         k, base = 2, name
         while name in res:
             name = f"{base} #{k}"; k += 1
-        res[name] = hashlib.sha256(text.encode()).hexdigest()[:15]
+        res[name] = text
     return res
